@@ -8,7 +8,7 @@
    bare values), instantiation with configured properties, setProperty on one instance. *)
 From Coq Require Import List Arith ZArith Bool Lia.
 Import ListNotations.
-Require Import FV.Gen.C09 FV.C09.Model FV.C09.Lemmas FV.C09.Refuted.
+Require Import FV.Gen.C09 FV.C09.Model FV.C09.Lemmas FV.C09.Remerge FV.C09.Refuted.
 Require Import FV.C09.CmdModel FV.C09.CmdLemmas FV.C09.CmdFrame.
 Require Import FV.C09.PropModel FV.C09.PropLemmas FV.C09.PropChain.
 
@@ -65,27 +65,56 @@ Proof.
 Qed.
 
 (* (6) The full statement would be: forall s d c, In c (classes s) -> describe_class (define s d) c = describe_class s c.
-   It is false in the model and in the pinned code (C09_refuted_inplace_merge, C09_refuted_own_datatype).  Proved with the
-   exact exclusion: every accessible object of c is either outside the footprint of the definition or re-merged to the
-   same content *)
+   It is false in the model and in the pinned code (C09_refuted_inplace_merge, C09_refuted_own_datatype).  Proved with an
+   exclusion stated on the INPUT side only (state s before the definition and the ghost sets the model computes for the
+   definition; nothing about the state after it).  For every accessible object i of c:
+     - i and its datatype object are outside the footprint of the definition (untouched), or
+     - the definition writes to no datatype object in place (snd (footprint s d) = []) and every in-place merge (i, M) it
+       does on i (merge_log s d, the ghost list of the `aobj.merge(merged_properties)` calls with their arguments) is a
+       RE-merge: the content i has in s is the content merging with M prescribes (stable_remerge s i M: merge_read, a
+       function on contents, has the description of i in s as a fixed point, and the datatype M names exists in s).
+   The second case is the ordinary subclass: `class C2(A): pass`, or any subclass that inherits an accessible without
+   overriding it, walks the same chain of class bodies as A did and merges A's object again with the same M
+   (C09_demo_remerge_same_content, NonVacuity.v).  Both findings violate exactly stable_remerge
+   (C09_guard_exact_diamond: M carries the description of the sibling; C09_guard_exact_leak: the datatype object M names
+   was written to by the bare-value override in between) *)
 Theorem C09_define_frame_except_inplace_writes : forall s d c,
   (forall k i, In (k, i) (c_acc c) ->
-     acc_ok s i /\ (untouched s d i \/ read (params (define s d)) (dts (define s d)) i = read (params s) (dts s) i)) ->
+     acc_ok s i /\
+     (untouched s d i \/
+      (snd (footprint s d) = [] /\ forall M, In (i, M) (merge_log s d) -> stable_remerge s i M))) ->
   describe_class (define s d) c = describe_class s c.
-Proof. intros; apply class_unchanged_by_define; assumption. Qed.
+Proof. intros; apply class_unchanged_by_remerge; assumption. Qed.
 
-(* (7) in particular a definition that writes to no existing object changes no existing description *)
-Theorem C09_define_frame_self_contained : forall s d c,
-  (forall i, In i (fst (footprint s d)) -> length (params s) <= i) ->
-  (forall j, In j (snd (footprint s d)) -> length (dts s) <= j) ->
-  (forall k i, In (k, i) (c_acc c) -> acc_ok s i) ->
-  describe_class (define s d) c = describe_class s c.
-Proof.
-  intros s d c Hp Hd Hok. apply class_unchanged_by_define. intros k i Hin.
-  destruct (Hok k i Hin) as [Hi Hj]. split; [split; assumption|]. left. split.
-  - intro H. apply Hp in H. lia.
-  - intros j E H. apply Hd in H. specialize (Hj j E). lia.
-Qed.
+(* (7) for ALL existing classes at once: a definition that writes to no datatype object in place and whose in-place merges
+   of EXISTING Parameter objects are all re-merges changes no existing description.  (Merges of the objects of its own
+   body are unrestricted; a definition that overrides every inherited accessible, or inherits none, has no merge of an
+   existing object and the second premise is empty; C09_merge_log_is_footprint ties the log to the footprint.) *)
+Theorem C09_define_frame_self_contained : forall s d,
+  snd (footprint s d) = [] ->
+  (forall i M, In (i, M) (merge_log s d) -> i < length (params s) -> stable_remerge s i M) ->
+  forall c, (forall k i, In (k, i) (c_acc c) -> acc_ok s i) -> describe_class (define s d) c = describe_class s c.
+Proof. intros s d W S c H; apply all_classes_unchanged_by_remerge; assumption. Qed.
+
+(* the ghost log lists exactly the Parameter objects of the footprint (5) is about *)
+Theorem C09_merge_log_is_footprint : forall s d i,
+  In i (fst (footprint s d)) <-> exists M, In (i, M) (merge_log s d).
+Proof. intros; apply log_in_footprint. Qed.
+
+(* why the re-merge premise holds for an object whose chain is walked again: merging is idempotent on contents.  An
+   object that has been merged with M (src = content of the datatype object M names, if it names one) is a fixed point
+   of merging with M, as long as that datatype object keeps its content *)
+Theorem C09_remerge_idempotent : forall a M src,
+  let a' := merge_read a M (match m_dt M with Some _ => src | None => a_dt a end) in
+  merge_read a' M (match m_dt M with Some _ => src | None => a_dt a' end) = a'.
+Proof. intros; apply merge_read_idem. Qed.
+
+(* and the heap level merge establishes it: right after `aobj.merge(M)` on object i (i and its datatype object in range,
+   the datatype M names in range) the object is a fixed point of merging with M in the resulting heap *)
+Theorem C09_merge_establishes_stable : forall h i a M, K h i a ->
+  (forall dd, m_dt M = Some dd -> dd < length (snd h)) ->
+  stable_at (snd (merge_cell h i M)) (read (fst (merge_cell h i M)) (snd (merge_cell h i M)) i) M.
+Proof. intros; eapply merge_establishes_stable; eassumption. Qed.
 
 (* the violations *)
 Theorem C09_refuted_mixin_alias :
@@ -215,21 +244,83 @@ Example C09_demo_register :
   map (fun i => xinputs s (inst_at s i)) [0; 1; 2] = [[1001%Z; 1003%Z]; [1002%Z]; []] /\ xcls_inputs s = [].
 Proof. vm_compute. repeat split. Qed.
 
-(* non-vacuity: an overriding subclass with an own Parameter object writes to nothing that exists;
-   `class D(A): pass` re-merges A.p in place (footprint [0]) to the same content *)
-Example C09_demo_self_contained :
-  let s := run [cA] in
-  let d := body_of (modcls [1; 0] [(1, par None None None (Some 5%Z) None)]) in
-  forallb (fun i => Nat.leb (length (params s)) i) (fst (footprint s d)) = true /\ snd (footprint s d) = [] /\
-  map snd (describe_class (define s d) (last (classes (define s d)) cls0)) =
-    [{| a_desc := Some 1%Z; a_group := None; a_value := Some 1%Z; a_dt := mkdt 1 (Some 0%Z) (Some 5%Z) 0 [] |}].
-Proof. vm_compute. repeat split. Qed.
+(* non-vacuity of (6)/(7) on ordinary subclasses.  E: p (FloatRange, object 0), mode (enum, object 1);
+   `class F(E): p = Parameter(max=5)` inherits mode without overriding it: footprint ([1; 2], []) - object 1 of E is
+   merged again, object 2 is F's own; the premises of (7) hold and E keeps its description, while F differs from E *)
+Definition demo_en : dt := mkdt 2 None None 0 [(7%Z, 1%Z)].
+Definition demo_E : op :=
+  modcls [0] [(1, par (Some 1%Z) (Some (fl 0 10)) (Some 1%Z) None None);
+              (3, par (Some 2%Z) (Some demo_en) (Some 1%Z) None None)].
+Definition demo_F : cdef := body_of (modcls [1; 0] [(1, par None None None (Some 5%Z) None)]).
 
+Ltac log_cases H :=
+  vm_compute in H;
+  repeat match type of H with
+         | _ \/ _ => destruct H as [H|H]
+         | False => contradiction
+         end.
+
+Example C09_demo_self_contained :
+  let s := run [demo_E] in
+  footprint s demo_F = ([1; 2], []) /\ length (params s) = 2 /\
+  describe_class (define s demo_F) (nth 0 (classes s) cls0) = describe_class s (nth 0 (classes s) cls0) /\
+  length (describe_class s (nth 0 (classes s) cls0)) = 2 /\
+  describe_class (define s demo_F) (last (classes (define s demo_F)) cls0) <> describe_class s (nth 0 (classes s) cls0).
+Proof.
+  cbv zeta. split; [vm_compute; reflexivity|]. split; [vm_compute; reflexivity|].
+  split; [|split; [vm_compute; reflexivity | intro H; vm_compute in H; discriminate H]].
+  apply C09_define_frame_self_contained.
+  - vm_compute. reflexivity.
+  - intros i M H L. log_cases H; injection H as Hi HM; subst i M;
+      first [ vm_compute in L; lia
+            | split; [intros dd E; vm_compute in E; injection E as E; subst dd; vm_compute; lia | vm_compute; reflexivity] ].
+  - intros k i H. log_cases H; injection H as Hk Hi; subst k i;
+      (split; [vm_compute; lia | intros j E; vm_compute in E; injection E as E; subst j; vm_compute; lia]).
+Qed.
+
+(* `class D(A): pass` re-merges A.p in place (footprint [0]) to the same content: (6) applies to c = A through its
+   re-merge disjunct, which is decided on the state before the definition *)
 Example C09_demo_remerge_same_content :
   let s := run [cA] in
   let d := body_of (modcls [1; 0] []) in
-  footprint s d = ([0], []) /\ read (params (define s d)) (dts (define s d)) 0 = read (params s) (dts s) 0.
-Proof. vm_compute. repeat split. Qed.
+  footprint s d = ([0], []) /\ map fst (merge_log s d) = [0] /\ c_acc (nth 0 (classes s) cls0) = [(1, 0)] /\
+  describe_class (define s d) (nth 0 (classes s) cls0) = describe_class s (nth 0 (classes s) cls0).
+Proof.
+  cbv zeta. split; [vm_compute; reflexivity|]. split; [vm_compute; reflexivity|]. split; [vm_compute; reflexivity|].
+  apply C09_define_frame_except_inplace_writes. intros k i H. log_cases H. injection H as Hk Hi. subst k i. split.
+  - split; [vm_compute; lia | intros j E; vm_compute in E; injection E as E; subst j; vm_compute; lia].
+  - right. split; [vm_compute; reflexivity|]. intros M H. log_cases H. injection H as HM. subst M.
+    split; [intros dd E; vm_compute in E; injection E as E; subst dd; vm_compute; lia | vm_compute; reflexivity].
+Qed.
+
+(* the guard is exact: each of the two witnesses of Refuted.v satisfies every premise of (6) for the changed class
+   except stable_remerge - the definition writes to no datatype object in place, the object of the changed class is in
+   range, it is merged once, and the content it has is NOT the one that merge prescribes *)
+Example C09_guard_exact_diamond :
+  let s := run diamond_before in
+  snd (footprint s diamond_Z) = [] /\ c_acc (nth 1 (classes s) cls0) = [(1, 1)] /\ acc_ok s 1 /\
+  exists M, merge_log s diamond_Z = [(1, M)] /\ (forall dd, m_dt M = Some dd -> dd < length (dts s)) /\
+            ~ stable_remerge s 1 M.
+Proof.
+  cbv zeta. split; [vm_compute; reflexivity|]. split; [vm_compute; reflexivity|].
+  split; [split; [vm_compute; lia | intros j E; vm_compute in E; injection E as E; subst j; vm_compute; lia]|].
+  eexists. split; [vm_compute; reflexivity|]. split.
+  - intros dd E. vm_compute in E. injection E as E. subst dd. vm_compute. lia.
+  - intros [_ H]. vm_compute in H. discriminate H.
+Qed.
+
+Example C09_guard_exact_leak :
+  let s := run leak_before in
+  snd (footprint s leak_D) = [] /\ c_acc (nth 0 (classes s) cls0) = [(1, 0)] /\ acc_ok s 0 /\
+  exists M, merge_log s leak_D = [(0, M)] /\ (forall dd, m_dt M = Some dd -> dd < length (dts s)) /\
+            ~ stable_remerge s 0 M.
+Proof.
+  cbv zeta. split; [vm_compute; reflexivity|]. split; [vm_compute; reflexivity|].
+  split; [split; [vm_compute; lia | intros j E; vm_compute in E; injection E as E; subst j; vm_compute; lia]|].
+  eexists. split; [vm_compute; reflexivity|]. split.
+  - intros dd E. vm_compute in E. injection E as E. subst dd. vm_compute. lia.
+  - intros [_ H]. vm_compute in H. discriminate H.
+Qed.
 
 (* ---------- module level PROPERTIES (PropModel.v): Property objects of classes on a heap, bare value overrides at any
    number of levels and through plain mixins, instantiation with configuration, setProperty on one instance.
@@ -343,6 +434,9 @@ Print Assumptions C09_instance_function_of_class_and_config.
 Print Assumptions C09_define_footprint.
 Print Assumptions C09_define_frame_except_inplace_writes.
 Print Assumptions C09_define_frame_self_contained.
+Print Assumptions C09_merge_log_is_footprint.
+Print Assumptions C09_remerge_idempotent.
+Print Assumptions C09_merge_establishes_stable.
 Print Assumptions C09_refuted_mixin_alias.
 Print Assumptions C09_refuted_value_override_leak.
 Print Assumptions C09_command_datatypes_isolated.
